@@ -59,7 +59,7 @@ WCreate == /\ tip # -1 /\ ops < MaxOps /\ ops' = ops + 1
                  /\ txs[ninfo[n].t].mined # -1 /\ Counted(n, tip + 1)
                  /\ (chg => nextN <= MaxNotes)
                  /\ LET outs == IF chg THEN << [n |-> nextN, pool |-> "O", v |-> 2, acct |-> 1, int |-> TRUE] >> ELSE << >>
-                    IN  /\ Create(nextT, tip + 1, e, {n}, outs)
+                    IN  /\ Create(nextT, tip + 1, e, {n}, outs, CreateChange(outs))
                         /\ pend' = pend \cup { [t |-> nextT, outs |-> outs, spends |-> << n >>] }
                  /\ nextT' = nextT + 1 /\ nextN' = nextN + (IF chg THEN 1 ELSE 0)
            /\ UNCHANGED nextB
